@@ -1236,6 +1236,31 @@ fn builtin_upper() -> Vec<Scenario> {
     // slot-less class-0 get demotes the same tree to class 0: the class the class-2 get reports must be the one it installed
     add("u-custom-steal-demote", cu(), false, 1, vec![], vec![vec![g(0, 2, None)], vec![g(0, 0, None)]]);
     add("u-custom-steal-demote-2trees", cu(), false, 2, vec![], vec![vec![g(0, 2, None), g(0, 2, None)], vec![g(0, 0, None)]]);
+    // the class-2 get WITH its slot goes through search_and_reserve -> Trees::reserve_or_steal on an entirely free
+    // default-class tree (custom policy: class 2 on class 1 is rated Steal, so it steals and the tree keeps class 1); the
+    // slot-less class-0 get allocates in the same tree and demotes it to class 0 between the search's load and the
+    // compare-exchange: the re-evaluation sees a class-0 tree (Invalid for class 2) and must give up on it.  With two trees
+    // the two gets meet in the second class-2 get (the first one takes tree 0, the class-0 get prefers tree 1)
+    add("u-custom-reserve-demote", cu(), false, 2, vec![g(0, 2, Some(0))], vec![vec![g(0, 2, Some(0))], vec![g(0, 0, None)]]);
+    add("u-custom-reserve-demote-2trees", cu(), false, 2, vec![], vec![vec![g(0, 2, Some(0)), g(0, 2, Some(0))], vec![g(0, 0, None)]]);
+    // ... or a change_tree re-classes the tree to the class that is unusable for the get: the class-0 get reserves tree 1
+    // (class 0 on class 1 is rated Demote), the class-2 get steals from tree 0
+    add(
+        "u-custom-reserve0-reclass2",
+        cu(),
+        false,
+        2,
+        vec![],
+        vec![vec![g(0, 0, Some(0))], vec![UChange { id: Some(1), mclass: None, mfree: 0, cclass: Some(2), op: 0 }]],
+    );
+    add(
+        "u-custom-reserve2-reclass0",
+        cu(),
+        false,
+        2,
+        vec![],
+        vec![vec![g(0, 2, Some(0))], vec![UChange { id: Some(0), mclass: None, mfree: 0, cclass: Some(0), op: 0 }]],
+    );
     // --- other classings
     add("u-mov-get-get", mv(), false, 3, vec![], vec![vec![g(0, 0, Some(0))], vec![g(0, 1, Some(0))]]);
     add("u-mov-get9-get0", mv(), false, 3, vec![g(0, 1, Some(0))], vec![vec![g(ho, 2, Some(0))], vec![g(0, 0, Some(0))]]);
